@@ -461,9 +461,15 @@ class _SteppedPatternBuilder(Generic[TResult]):
 
         self._add_format_action(format_action)
 
-    def _add_format_fraction_truncate(self, width: int, scale: int, selector: Callable[[TResult], int]) -> None:
+    def _add_format_fraction_truncate(
+        self, width: int, scale: int, selector: Callable[[TResult], int], keep_preceding_point: bool = False
+    ) -> None:
         def format_action(value: TResult, sb: StringBuilder) -> None:
+            length_before = sb.length
             _FormatHelper._append_fraction_truncate(selector(value), width, scale, sb)
+            if keep_preceding_point and sb.length < length_before:
+                # The period which was removed isn't the optional decimal separator of this field.
+                sb.append(".")
 
         self._add_format_action(format_action)
 
